@@ -232,7 +232,14 @@ def container_step(m, ckind, ikind, bounds, op):
             m[:] = trial
     elif ckind == "dict":
         trial = dict(m)
-        ret, val_exc, dict_exc = c06.PROP.model_apply(trial, op, convfn(ikind[0]),
+        mop = op
+        if k == "update_kw":
+            # the keyword form of dict.update: what the built-in does is an update
+            # with the positional pairs followed by the keyword items (the caller
+            # decides what a TypeError for the call form itself means)
+            mop = {"k": "update_pairs",
+                   "pairs": ([] if op.get("nopos") else list(op.get("pairs", ()))) + list(op["kw"])}
+        ret, val_exc, dict_exc = c06.PROP.model_apply(trial, mop, convfn(ikind[0]),
                                                       convfn(ikind[1]))
         if val_exc:
             allowed.add(val_exc)
@@ -336,6 +343,13 @@ class Prop:
                 def val():
                     return gen_item(r, ikind[1], fresh, invalid_rate)
                 op, _, _ = c06.gen_dict_op(r, key, val)
+                if r.random() < 0.07:
+                    # dict.update(**kw) / dict.update(pairs, **kw): keyword items
+                    # must be validated like any other (or the form be refused)
+                    op = {"k": "update_kw", "nopos": r.random() < 0.5,
+                          "pairs": [[key(), val()] for _ in range(r.randint(0, 2))],
+                          "kw": [[{"t": "str", "v": str(r.choice([1, 2, 3, fresh()]))}, val()]
+                                 for _ in range(r.randint(1, 2))]}
             else:
                 def sitem(validating):
                     return gen_item(r, ikind[0], fresh, invalid_rate if validating else 0.0,
@@ -350,7 +364,7 @@ class Prop:
                                   "exc": er.choice(["TraitError", "ValueError",
                                                     "AttributeError", "RuntimeError"])}]
             ops.append(op)
-            if not op.get("env"):
+            if not op.get("env") and op["k"] != "update_kw":
                 try:
                     self.model_step(model, op, (lo, hi))
                 except Exception:      # noqa: BLE001 - generator's model copy is best effort
@@ -558,6 +572,12 @@ class Prop:
             env.end_op()
             injected = env.fired["raise"] > fired0
             en = exc_name(e)
+            if k == "update_kw" and en == "TypeError" and not injected:
+                # the call form itself is not offered (dict.update's keyword form is
+                # no part of TraitDict.update's signature): then nothing happened
+                if allowed is None:
+                    self.restore(model, self._saved)
+                allowed = {"TypeError"}
             if injected:
                 # validator callback failed: model must not have moved
                 if allowed is None:
@@ -697,8 +717,10 @@ def describe(op):
         parts.append(repr(raw_s(op["v"])))
     if "vs" in op:
         parts.append(repr([raw_s(s) for s in op["vs"]]))
-    if "pairs" in op:
+    if "pairs" in op and not op.get("nopos"):
         parts.append(repr([(raw_s(a), raw_s(b)) for a, b in op["pairs"]]))
+    if "kw" in op:
+        parts.append("**%r" % ({raw_s(a): raw_s(b) for a, b in op["kw"]},))
     if "args" in op:
         parts.append(repr([[raw_s(s) for s in a] for a in op["args"]]))
     return "%s(%s)" % (k, ", ".join(parts))
